@@ -100,18 +100,18 @@ func c14(c *Ctx) {
 		var auto []cfgx.Edge
 		for _, b := range rec.Blocks {
 			for _, in := range b.Instrs {
-				if bo, ok := in.(*ssa.BinOp); ok && bo.Op == token.EQL {
+				if bo, ok := in.(*ssa.BinOp); ok && isEqOrNeq(bo) {
 					if cfgx.IsNilConst(bo.Y) && hasSuffixCall(bo.X, ".GetActivationPolicy") {
-						t, _ := cfgx.CondEdges(bo)
+						t, _ := eqEdges(bo)
 						auto = append(auto, t...)
 					}
 					if s, ok := cfgx.ConstString(bo.Y); ok && s == "Automatic" {
-						t, _ := cfgx.CondEdges(bo)
+						t, _ := eqEdges(bo)
 						auto = append(auto, t...)
 					}
 					if ld, ok := bo.Y.(*ssa.UnOp); ok && ld.Op == token.MUL {
 						if g, ok := ld.X.(*ssa.Global); ok && g.Name() == "AutomaticActivation" {
-							t, _ := cfgx.CondEdges(bo)
+							t, _ := eqEdges(bo)
 							auto = append(auto, t...)
 						}
 					}
@@ -396,9 +396,9 @@ func c14(c *Ctx) {
 					var never []cfgx.Edge
 					for _, bb := range rvf.Blocks {
 						for _, in := range bb.Instrs {
-							if bo, ok := in.(*ssa.BinOp); ok && bo.Op == token.EQL {
+							if bo, ok := in.(*ssa.BinOp); ok && isEqOrNeq(bo) {
 								if s, ok := cfgx.ConstString(bo.Y); ok && s == "Never" {
-									t, _ := cfgx.CondEdges(bo)
+									t, _ := eqEdges(bo)
 									never = append(never, t...)
 								}
 							}
@@ -410,8 +410,8 @@ func c14(c *Ctx) {
 				var same []cfgx.Edge
 				for _, bb := range rvf.Blocks {
 					for _, in := range bb.Instrs {
-						if bo, ok := in.(*ssa.BinOp); ok && bo.Op == token.EQL && hasSuffixCall(bo.X, ".GetCurrentIdentifier") && hasSuffixCall(bo.Y, ".GetSource") {
-							t, _ := cfgx.CondEdges(bo)
+						if bo, ok := in.(*ssa.BinOp); ok && isEqOrNeq(bo) && hasSuffixCall(bo.X, ".GetCurrentIdentifier") && hasSuffixCall(bo.Y, ".GetSource") {
+							t, _ := eqEdges(bo)
 							same = append(same, t...)
 						}
 					}
@@ -419,9 +419,9 @@ func c14(c *Ctx) {
 				var ifnp []cfgx.Edge
 				for _, bb := range rvf.Blocks {
 					for _, in := range bb.Instrs {
-						if bo, ok := in.(*ssa.BinOp); ok && bo.Op == token.EQL {
+						if bo, ok := in.(*ssa.BinOp); ok && isEqOrNeq(bo) {
 							if s, ok := cfgx.ConstString(bo.Y); ok && s == "IfNotPresent" {
-								t, _ := cfgx.CondEdges(bo)
+								t, _ := eqEdges(bo)
 								ifnp = append(ifnp, t...)
 							}
 						}
